@@ -1,10 +1,13 @@
 """C01 — compiled SQL returns exactly the multiset the program denotes.
 
-(T) lean/LogicaModel/Props/C01.lean
+(T) lean/LogicaModel/Props/C01.lean (verified compiler of the conjunctive fragment: evalSelect (compile r) = denote r)
+(K) cqcheck: the real compiler's SELECT for random conjunctive rules is literally `CQ.compile`, and SQLite
+    returns `CQ.denote` on random tables
 (K/S) generated core-fragment programs: rows + column names from the real pipeline on SQLite versus the
       Lean reference evaluator Sem.denote on the generator's AST.
 """
 import core
+import cqcheck
 import gen_program as G
 import semcheck
 import templates
@@ -38,6 +41,7 @@ def run(ck):
     if got != exp:
       ck.violation(c.get('key', 'corpus:' + c['_file']), 'corpus %s: %s %s, got %s expected %s' % (
           c['_file'], r['kind'], r.get('message', '')[:150], got, exp), {'program': c['program'], 'pred': c['pred']})
+  cqcheck.run(ck, ck.budget(200, 4000))
   n = ck.budget(150, 2500)
   made = semcheck.make_programs(ck, n, MASK)
   made += semcheck.make_programs(ck, ck.budget(40, 600), None, {'templates': ['t_multivalued_calls', 't_nested_disjunction', 't_no_table_rule', 't_record_if']}, builder=templates.build)
